@@ -170,10 +170,12 @@ class Ctx:
                        {"broken": name, "detail": detail[-6000:], "extra": extra}, False)
 
     # ------------------------------------------------------------------ Go harness
-    def go_build(self, pkg=None, timeout=1500):
+    def go_build(self, pkg=None, timeout=1500, out_name=None):
         pkg = pkg or self.lc
         os.makedirs(BIN, exist_ok=True)
-        out = os.path.join(BIN, pkg)
+        # out_name: binary name under harness/bin (default: the package name); a check that shares another
+        # property's harness package builds its own copy so that concurrent checks never delete each other's binary
+        out = os.path.join(BIN, out_name or pkg)
         if os.path.exists(out):
             os.remove(out)  # never run a stale binary
         extra = []
@@ -185,7 +187,7 @@ class Ctx:
         else:
             # VERIF_REPO=<scratch worktree>: build against it through an alternate go.mod, so that
             # mutation experiments never touch /repo (binary goes to a separate path as well)
-            out = os.path.join(BIN, pkg + ".alt-" + hashlib.sha1(REPO.encode()).hexdigest()[:8])
+            out = os.path.join(BIN, (out_name or pkg) + ".alt-" + hashlib.sha1(REPO.encode()).hexdigest()[:8])
             if os.path.exists(out):
                 os.remove(out)
             alt = os.path.join(self.work, "alt.go.mod")
@@ -196,6 +198,9 @@ class Ctx:
             shutil.copyfile(os.path.join(REPO, "go.sum"), os.path.join(self.work, "alt.go.sum"))
             extra = ["-modfile=" + alt]
         self.bin_path = out
+        if not hasattr(self, "bins"):
+            self.bins = {}
+        self.bins[pkg] = out
         rc, log, dt = sh(["go", "build", "-tags", "verif"] + extra + ["-o", out, "./" + pkg], cwd=HARNESS,
                          env=go_env(), timeout=timeout)
         self.log("go build ./%s rc=%d (%.1fs)" % (pkg, rc, dt))
@@ -214,7 +219,7 @@ class Ctx:
         env["VERIF_REPO"] = REPO
         if env_extra:
             env.update(env_extra)
-        exe = getattr(self, "bin_path", None) if pkg is None else os.path.join(BIN, pkg)
+        exe = getattr(self, "bin_path", None) if pkg is None else getattr(self, "bins", {}).get(pkg, os.path.join(BIN, pkg))
         rc, out, dt = sh([exe or os.path.join(BIN, self.lc)] + [str(a) for a in args], cwd=self.work,
                          env=env, timeout=timeout, stdin=stdin)
         return rc, out
